@@ -132,11 +132,19 @@ def rand_leaf_spec(rng, specs, jnp):
     if kind == "DiscreteArray":
         dt = np.dtype(rng.choice(["int8", "int16", "int32", "uint8"]))
         n = int(rng.integers(1, min(120, dtype_range(dt)[1]) + 1))
+        if rng.random() < 0.15 and dt != np.dtype("int32"):
+            n = int(dtype_range(dt)[1]) + 1  # the whole non-negative range of a narrow dtype (byte-valued actions ...)
         return specs.DiscreteArray(n, dt, name)
     rank = int(rng.integers(1, 3))
     shape = tuple(int(rng.integers(1, 4)) for _ in range(rank))
-    nv = jnp.asarray(rng.integers(1, 9, size=shape), jnp.int32)
-    return specs.MultiDiscreteArray(nv, np.dtype(rng.choice(["int8", "int32"])), name)
+    dt = np.dtype(rng.choice(["int8", "int32", "int16", "uint8"]))
+    nv = rng.integers(1, 9, size=shape)
+    if rng.random() < 0.3 and dt != np.dtype("int32"):
+        # one or all components span the whole non-negative range of the narrow dtype: num_values = dtype max + 1
+        full = int(dtype_range(dt)[1]) + 1
+        nv = np.where(rng.random(shape) < 0.6, full, nv)
+        nv.reshape(-1)[0] = full
+    return specs.MultiDiscreteArray(jnp.asarray(nv, jnp.int32), dt, name)
 
 
 def rand_nested(rng, specs, jnp, depth):
@@ -423,11 +431,12 @@ class Judge:
         out = [("name", spec.name + "_r")]
         dt = np.dtype(spec.dtype)
         if isinstance(spec, specs.DiscreteArray):
-            out.append(("num_values", int(spec.num_values) + 1 if int(spec.num_values) + 1 <= dtype_range(dt)[1] else max(1, int(spec.num_values) - 1)))
+            out.append(("num_values", int(spec.num_values) + 1 if int(spec.num_values) + 1 <= int(dtype_range(dt)[1]) + 1 else max(1, int(spec.num_values) - 1)))
             return out
         if isinstance(spec, specs.MultiDiscreteArray):
             nv = np.asarray(spec.num_values).copy()
-            nv.flat[0] = nv.flat[0] + 1
+            # stay inside the dtype: a component that already spans the whole range is lowered instead of raised
+            nv.flat[0] = nv.flat[0] + 1 if int(nv.flat[0]) + 1 <= int(dtype_range(dt)[1]) + 1 else max(1, int(nv.flat[0]) - 1)
             out.append(("num_values", jnp.asarray(nv)))
             return out
         if isinstance(spec, specs.BoundedArray):
